@@ -2,35 +2,36 @@
 # confirm a sub-agent's seeded change in its scratch worktree and file it under seeded/<id>/
 #   tools/confirm_seed.sh C04 "needs: ..." [full]
 p=$1; needs=$2; full=$3
-wt=/tmp/mut/$p
+root=${MUT_ROOT:-/tmp/mut}; name=$p${SUFFIX:-}
+wt=$root/$p
 cd $wt || exit 2
 # the agent's deliverable is the source of truth (git stash is shared between worktrees and must not be used here)
 test -s $wt/mutation.diff || { echo "no mutation.diff in $wt"; exit 2; }
 git checkout -q -- src
 git apply $wt/mutation.diff || { echo "mutation.diff does not apply"; exit 2; }
-git diff -- src > /tmp/mut/$p.actual.diff
-PYTHONPATH=$wt/src /venv/bin/python $wt/demo.py > /tmp/mut/$p.demo_with.log 2>&1; with=$?
-git apply -R /tmp/mut/$p.actual.diff
+git diff -- src > $root/$p.actual.diff
+PYTHONPATH=$wt/src /venv/bin/python $wt/demo.py > $root/$p.demo_with.log 2>&1; with=$?
+git apply -R $root/$p.actual.diff
 test -z "$(git status --porcelain -- src)" || { echo "worktree not clean after reverse apply"; exit 2; }
-PYTHONPATH=$wt/src /venv/bin/python $wt/demo.py > /tmp/mut/$p.demo_without.log 2>&1; without=$?
-git apply /tmp/mut/$p.actual.diff
+PYTHONPATH=$wt/src /venv/bin/python $wt/demo.py > $root/$p.demo_without.log 2>&1; without=$?
+git apply $root/$p.actual.diff
 echo "demo with change: exit $with ; without: exit $without"
 tests="not run"
 if [ "$full" = "full" ]; then
-  PYTHONPATH=$wt/src /venv/bin/python -m pytest -q -p no:cacheprovider --timeout=900 -k "not subprocess" --deselect tests/test_issues.py::test_issue_50 --deselect tests/test_formulas.py::test_parse_formulas > /tmp/mut/$p.tests.log 2>&1
-  tests=$(tail -1 /tmp/mut/$p.tests.log)
+  PYTHONPATH=$wt/src /venv/bin/python -m pytest -q -p no:cacheprovider --timeout=900 -k "not subprocess" --deselect tests/test_issues.py::test_issue_50 --deselect tests/test_formulas.py::test_parse_formulas > $root/$p.tests.log 2>&1
+  tests=$(tail -1 $root/$p.tests.log)
   echo "tests: $tests"
 fi
 if [ $with -ne 0 ] && [ $without -eq 0 ]; then
-  d=/verif/seeded/$p
+  d=/verif/seeded/$name
   mkdir -p $d
-  cp /tmp/mut/$p.actual.diff $d/patch.diff; cp $wt/demo.py $d/demo.py; cp $wt/notes.md $d/notes.md 2>/dev/null
-  python3 - "$p" "$needs" "$with" "$without" "$tests" <<'PY'
+  cp $root/$p.actual.diff $d/patch.diff; cp $wt/demo.py $d/demo.py; cp $wt/notes.md $d/notes.md 2>/dev/null
+  python3 - "$p" "$needs" "$with" "$without" "$tests" "$name" <<'PY'
 import json,sys
-p,needs,w,wo,tests=sys.argv[1:6]
+p,needs,w,wo,tests,name=sys.argv[1:7]
 json.dump({"property":p,"needs":needs,"confirmed":{"demo_exit_with_change":int(w),"demo_exit_without_change":int(wo),"existing_tests":tests,
- "how":"tools/confirm_seed.sh in a scratch worktree of /repo under /tmp/mut (git apply / apply -R of the change around the demo; stable suite with PYTHONPATH=<worktree>/src)"},
- "origin":"fresh sub-agent given only the property text and its own worktree"}, open("/verif/seeded/%s/meta.json"%p,"w"), indent=1)
+ "how":"tools/confirm_seed.sh in a scratch worktree of /repo under /tmp (git apply / apply -R of the change around the demo; stable suite with PYTHONPATH=<worktree>/src)"},
+ "origin":"fresh sub-agent given only the property text and its own worktree"}, open("/verif/seeded/%s/meta.json"%name,"w"), indent=1)
 PY
   echo "filed under $d"
 else
